@@ -53,7 +53,26 @@ pub fn gen_pair_line(r: &mut Rng, name: &str) -> String {
         _ => E::Binary { left: Box::new(E::Call { name: "str".into(), params: vec![call(&args)] }), right: Box::new(E::Call { name: "str".into(), params: vec![call(&args2)] }), operator: O::Plus } };
     format!("script {} 0", hex(&crate::lang::render_text(&e, r.below(4))))
 }
+/// nested calls of ONE variadic reducer (`max(a, max(b, c))`, `min(min(a, b), c, d)` …) over values that `Value::cmp` does NOT order transitively
+/// ('abc' / '10' / 9, a NaN between two numbers, numeric strings of different digit counts), some of them held in variables so that the inner call
+/// cannot be folded: regrouping or flattening such a call changes which element wins
+fn gen_regroup_line(r: &mut Rng) -> String {
+    const TRIPLES: &[[&str; 3]] = &[["sabc", "s10", "n9"], ["n2", "nNaN", "n1"], ["s9", "n9.5", "s10"], ["s10", "n9", "sabc"], ["n1", "nNaN", "n0"], ["s95", "n100", "s100"],
+        ["bT", "s1", "n0.5"], ["n3", "n2", "n1"], ["s", "n0", "bF"], ["nNaN", "n5", "nNaN"]];
+    let f = *r.pick(&["max", "min"]); let t = r.pick(TRIPLES);
+    let val = |c: &str| -> V { let body = &c[1..]; match &c[..1] { "s" => V::String(body.into()), "b" => V::Boolean(body == "T"), _ => V::Number(if body == "NaN" { f64::NAN } else { body.parse().unwrap() }) } };
+    let mut vars: Vec<(String, V)> = vec![]; let mut order: Vec<usize> = vec![0, 1, 2]; if r.chance(1, 2) { let k = r.usize(3); order.swap(0, k); }
+    let mut leaf = |r: &mut Rng, i: usize, force_var: bool| -> E { let v = val(t[i]); if force_var || r.chance(1, 3) { let n = format!("t{}", i + 1); vars.push((n.clone(), v)); E::Variable { name: n } } else { value_expr(&v) } };
+    let fv = r.usize(2);
+    let (a, b, c) = (leaf(r, order[0], false), leaf(r, order[1], fv == 0), leaf(r, order[2], fv == 1));
+    let call = |ps: Vec<E>| E::Call { name: f.to_string(), params: ps };
+    let e = match r.below(4) { 0 | 1 => call(vec![a, call(vec![b, c])]), 2 => call(vec![call(vec![b, c]), a]), _ => call(vec![a, call(vec![b, c]), lit(V::Number(1.0))]) };
+    let mut p = vec![format!("script {}", hex(&crate::lang::render_text(&e, r.below(4)))), format!("{}", vars.len())];
+    for (n, v) in &vars { p.push(hex(n)); p.push(show_in(v)); }
+    p.join(" ")
+}
 pub fn gen_script_line(r: &mut Rng) -> String {
+    if r.chance(1, 12) { return gen_regroup_line(r); }
     let d = r.below(3) as u32; let e = gen_expr(r, d);
     let st = r.below(4); let text = crate::lang::render_text(&e, st);
     let mut p = vec![format!("script {}", hex(&text))];
